@@ -23,6 +23,10 @@ type Sched struct {
 	Tip   int64   // height the chain has reached when the service catches up / is restarted
 	Die   []int   // per run: die immediately before this physical operation (0 = run to the end)
 	Mode  string  // "service" (real EVMIndexerService) | "direct" (IndexBlock driven in the given order)
+	// pruning scenario (service mode): run 0 catches up to Tip1 and is stopped gracefully; before run 1 the node has
+	// pruned its block store: blocks below Earliest are gone
+	Tip1     int64
+	Earliest int64
 	Order []int64 // direct mode: heights in the order they are indexed (may repeat, may go backwards)
 }
 
@@ -81,6 +85,13 @@ func RunSched(r *Rec, n *Names, s Sched) SchedResult {
 		if run == 0 && s.Mode == "service" {
 			stub = NewStub(r, s.Start)
 		}
+		runTip := s.Tip
+		if run == 0 && s.Tip1 > 0 {
+			runTip = s.Tip1
+		}
+		if run > 0 && s.Earliest > 0 {
+			stub.SetEarliest(s.Earliest)
+		}
 		stub.OnResults = func(h int64) { lg.add(trace.M{"ev": "IndexBlock", "h": h, "mode": s.Mode}) }
 		db := NewCrashDB(inner, die, dec, lg.add)
 		cctx := ClientCtx(r, stub)
@@ -89,7 +100,7 @@ func RunSched(r *Rec, n *Names, s Sched) SchedResult {
 		if err != nil {
 			panic(err)
 		}
-		lg.add(trace.M{"ev": "Restart", "run": run, "last": last, "tip": stub.Tip()})
+		lg.add(trace.M{"ev": "Restart", "run": run, "last": last, "tip": stub.Tip(), "earliest": stub.Earliest()})
 		died := false
 		switch s.Mode {
 		case "service":
@@ -114,15 +125,15 @@ func RunSched(r *Rec, n *Names, s Sched) SchedResult {
 			if !waitFor(10*time.Second, func() bool { return isDead() || idx.IsReady() }) {
 				res.Stuck = "service never became ready"
 			}
-			if run == 0 && !died && s.Tip > s.Start {
+			if run == 0 && !died && runTip > s.Start {
 				// the chain grows while the service is running
-				lg.add(trace.M{"ev": "Tip", "tip": s.Tip})
-				stub.SetTip(s.Tip)
+				lg.add(trace.M{"ev": "Tip", "tip": runTip})
+				stub.SetTip(runTip)
 				ok := waitFor(10*time.Second, func() bool {
 					if isDead() {
 						return true
 					}
-					return stub.ResultsServed(s.Tip)
+					return stub.ResultsServed(runTip)
 				})
 				if ok && !died {
 					// BlockResults(tip) has been served: IndexBlock(tip) follows immediately
@@ -131,7 +142,7 @@ func RunSched(r *Rec, n *Names, s Sched) SchedResult {
 							return true
 						}
 						l, _ := idx.GetLastRequestIndexedBlock()
-						return l >= s.Tip
+						return l >= runTip
 					})
 				}
 				if !ok {
@@ -179,10 +190,16 @@ func RunSched(r *Rec, n *Names, s Sched) SchedResult {
 			continue
 		}
 		// caught up: observe the two lookups for every hash of the chain and a few foreign keys
-		lg.add(trace.M{"ev": "Caught", "tip": s.Tip})
+		if s.Mode == "direct" {
+			runTip = s.Tip
+		}
+		lg.add(trace.M{"ev": "Caught", "tip": runTip})
 		lg.add(trace.M{"ev": "Kv", "when": "caught-up", "dump": dec.Dump(inner)})
-		for _, ev := range Lookups(r, n, idx, s.Tip) {
+		for _, ev := range Lookups(r, n, idx, runTip) {
 			lg.add(ev)
+		}
+		if run == 0 && s.Earliest > 0 && len(s.Die) > 1 {
+			continue // graceful stop, the node prunes, the service is started again
 		}
 		break
 	}
